@@ -959,7 +959,7 @@ func TestVerifC03Crash(t *testing.T) {
 	maxHit := 3
 	nrandom := 0
 	if !verifh.Quick() {
-		budget, maxHit, nrandom = 100, 1<<30, 6
+		budget, maxHit, nrandom = 60, 1<<30, 4
 	}
 	if v := os.Getenv("C03_BUDGET"); v != "" {
 		budget, _ = strconv.Atoi(v)
